@@ -352,3 +352,18 @@ def value_term(rng, depth, tricky, key=False):
 def nested_term(depth, kind="t("):
     close = {"(": ")", "[": "]", "{": "}"}[kind[1]]
     return [kind] * depth + ["n3ff0000000000000:1"] + [close] * depth
+
+
+def schedule_solo(rng, n):
+    """API-sequence fuzz: raw flushes and error taking without draining first (queued values are dropped, so the result depends on the
+    schedule: compared with the model and checked for crashes only, never across schedules)"""
+    out = ["R"] if rng.chance(1, 2) else []
+    pos = 0
+    while pos < n:
+        k = min(n - pos, rng.choice([1, 2, 3, 5, 8, 13, 40]))
+        out.append("%s%d" % (rng.choice("cCubj"), k))
+        pos += k
+        while rng.chance(1, 2):
+            out.append(rng.choice("swtihpPDeGFtikK"))
+    out += ["t", "i", "E", "t", "i", "D"]
+    return ",".join(out)
